@@ -443,5 +443,72 @@ theorem poly_writes (pl : Polyline) (w : Nat) (c : Color) (B : Rect) (d : PolyDr
     · rw [moveS_isEmpty]; exact hne s hs
     · exact hr _ (List.mem_map.mpr ⟨s, hs, rfl⟩)
 
+/-! ### the styled polyline with an optional stroke colour; guards -/
+
+/-- `draw_styled` of `polyline.into_styled(style)`, `sc = style.stroke_color`, `w = style.stroke_width`:
+nothing without a stroke colour. -/
+def polyStyledCalls (pl : Polyline) (w : Nat) (sc : Option Color) : Option (List Call) :=
+  match sc with
+  | none => some []
+  | some c => (drawStyled pl w).map (polyCalls c)
+
+/-- `pixels()` of the same styled polyline: `next` returns `None` without a stroke colour. -/
+def polyStyledPixels (pl : Polyline) (w : Nat) (sc : Option Color) : Option Writes :=
+  match sc with
+  | none => some []
+  | some c => (pixels pl w).map (·.map (fun p => (p, c)))
+
+/-- Guard: no `fill_solid` rectangle of `draw_styled` saturates `i32`. -/
+def PolyRectsInRange (pl : Polyline) (w : Nat) : Prop :=
+  match drawStyled pl w with
+  | some d => ∀ r ∈ polyRects d, r.InRange
+  | none => True
+
+instance (pl : Polyline) (w : Nat) : Decidable (PolyRectsInRange pl w) := by
+  unfold PolyRectsInRange; split <;> exact inferInstance
+
+/-- Guard (model artefact): the fuel with which the model drains `pixels()` of a polyline of width
+> 1 (`polyPixelBudget bb * (n + 1)`) was not used up, i.e. the model's pixel list is complete. -/
+def PolyPixelBudgetOK (pl : Polyline) (w : Nat) : Prop :=
+  match pixels pl w, untranslatedBoundingBox pl w with
+  | some ps, some bb => ps.length < polyPixelBudget bb * (pl.vertices.length + 1)
+  | _, _ => True
+
+instance (pl : Polyline) (w : Nat) : Decidable (PolyPixelBudgetOK pl w) := by
+  unfold PolyPixelBudgetOK; split <;> exact inferInstance
+
+/-- `poly_writes` with the optional colour and the two guards. -/
+theorem polyStyled_writes (pl : Polyline) (w : Nat) (sc : Option Color) (B : Rect)
+    (hr : PolyRectsInRange pl w) (hb : PolyPixelBudgetOK pl w) (calls : List Call) (px : Writes)
+    (hc : polyStyledCalls pl w sc = some calls) (hp : polyStyledPixels pl w sc = some px) :
+    calls.flatMap (Call.lowerNative B) = px := by
+  cases sc with
+  | none =>
+    simp only [polyStyledCalls, polyStyledPixels, Option.some.injEq] at hc hp
+    subst hc hp
+    rfl
+  | some c =>
+    unfold polyStyledCalls at hc
+    unfold polyStyledPixels at hp
+    dsimp only at hc hp
+    cases hd : drawStyled pl w with
+    | none => rw [hd] at hc; cases hc
+    | some d =>
+      cases hps : pixels pl w with
+      | none => rw [hps] at hp; cases hp
+      | some ps =>
+        rw [hd] at hc
+        rw [hps] at hp
+        simp only [Option.map_some, Option.some.injEq] at hc hp
+        subst hc hp
+        apply poly_writes pl w c B d ps hd hps
+        · intro bb _ hbb
+          unfold PolyPixelBudgetOK at hb
+          rw [hps, hbb] at hb
+          exact hb
+        · unfold PolyRectsInRange at hr
+          rw [hd] at hr
+          exact hr
+
 end C01Thick
 end EG
